@@ -314,6 +314,8 @@ func (ns *normState) collect(p *Prog, pkg *packages.Package, f *ast.File, src []
 					call, kind = c, "return"
 				}
 			}
+		case *ast.DeferStmt:
+			call, kind = s.Call, "defer"
 		case *ast.IfStmt:
 			cond := ast.Expr(s.Cond)
 			for {
@@ -378,15 +380,25 @@ func (ns *normState) collect(p *Prog, pkg *packages.Package, f *ast.File, src []
 			return false
 		}
 		// callee body with renames
-		body, hasRet, ok := ns.renderBody(p, ci, k, rnames, src)
+		bodyR := rnames
+		if kind == "defer" {
+			bodyR = nil // inside `defer func(){...}()` a return stays a return; results are evaluated and dropped
+		}
+		body, hasRet, ok := ns.renderBodyMode(p, ci, k, bodyR, kind == "defer")
 		if !ok {
 			return false
+		}
+		if kind == "defer" {
+			// `defer f(a, b)`  ==>  temporaries evaluated now (as Go evaluates deferred arguments), body run at exit
+			pre.Reset()
 		}
 		// capture check: free package-level identifiers must resolve identically at the call site
 		if !captureSafe(pkg, ci, call.Pos()) {
 			return false
 		}
-		pre.WriteString("{\n")
+		if kind != "defer" {
+			pre.WriteString("{\n")
+		}
 		// receiver and parameters
 		if ci.decl.Recv != nil {
 			rt := sig.Recv().Type()
@@ -458,6 +470,13 @@ func (ns *normState) collect(p *Prog, pkg *packages.Package, f *ast.File, src []
 				}
 				pi++
 			}
+		}
+		if kind == "defer" {
+			fmt.Fprintf(&pre, "defer func() {\n%s\n}()\n", body)
+			*edits = append(*edits, textEdit{off(st.Pos()), off(st.End()), pre.String()})
+			ns.inlined[ci.key] = true
+			ns.sites[ci.obj]++
+			return true
 		}
 		if hasRet {
 			fmt.Fprintf(&pre, "L%s:\nswitch {\ndefault:\n%s\n}\n", k, body)
@@ -551,6 +570,12 @@ func (ns *normState) collect(p *Prog, pkg *packages.Package, f *ast.File, src []
 // renderBody returns the callee's body text with its locals (params, receiver, declared
 // variables) renamed by suffix k and its return statements turned into assignments + break.
 func (ns *normState) renderBody(p *Prog, ci *calleeInfo, k string, rnames []string, _ []byte) (string, bool, bool) {
+	return ns.renderBodyMode(p, ci, k, rnames, false)
+}
+
+// renderBodyMode: closure=true keeps `return` as the exit of a wrapping func literal (results are
+// evaluated for their side effects and dropped).
+func (ns *normState) renderBodyMode(p *Prog, ci *calleeInfo, k string, rnames []string, closure bool) (string, bool, bool) {
 	fname := p.Fset.Position(ci.file.Pos()).Filename
 	src, err := ns.fileSrc(fname)
 	if err != nil {
@@ -621,6 +646,28 @@ func (ns *normState) renderBody(p *Prog, ci *calleeInfo, k string, rnames []stri
 					return true
 				}
 				hasRet = true
+				if closure {
+					if len(x.Results) == 0 {
+						return false // plain `return` stays
+					}
+					// return a, b  ->  { _, _ = a, b; return }
+					blanks := make([]string, len(x.Results))
+					for i := range blanks {
+						blanks[i] = "_"
+					}
+					if len(x.Results) == 1 && ci.obj.Type().(*types.Signature).Results().Len() > 1 {
+						blanks = make([]string, ci.obj.Type().(*types.Signature).Results().Len())
+						for i := range blanks {
+							blanks[i] = "_"
+						}
+					}
+					edits = append(edits, textEdit{off(x.Pos()), off(x.Results[0].Pos()), "{ " + strings.Join(blanks, ", ") + " = "})
+					edits = append(edits, textEdit{off(x.End()), off(x.End()), "; return }"})
+					for _, e := range x.Results {
+						walk(e, inLit)
+					}
+					return false
+				}
 				if len(rnames) == 0 {
 					edits = append(edits, textEdit{off(x.Pos()), off(x.End()), "break L" + k})
 					return false
